@@ -42,6 +42,7 @@ type frame struct {
 	parent   *frame // lexical parent (closures)
 	binds    map[types.Object]*funcVal
 	ptrLocal map[types.Object]bool // pointer params bound to the address of a caller's local
+	alias    map[types.Object]Loc  // slice/map params (and locals derived from them) that refer to a field's memory
 	defers   []deferItem
 	exit     int
 	exitSet  bool
@@ -60,6 +61,14 @@ func (f *frame) lookup(o types.Object) *funcVal {
 		}
 	}
 	return nil
+}
+func (f *frame) aliasOf(o types.Object) (Loc, bool) {
+	for g := f; g != nil; g = g.parent {
+		if l, ok := g.alias[o]; ok {
+			return l, true
+		}
+	}
+	return Loc{}, false
 }
 func (f *frame) isPtrLocal(o types.Object) bool {
 	for g := f; g != nil; g = g.parent {
@@ -340,6 +349,10 @@ func (w *walker) expr(e ast.Expr) val {
 			return val{}
 		}
 		if o := info.ObjectOf(x); o != nil {
+			if l, ok := w.fr.aliasOf(o); ok {
+				w.rd(l, x.Pos())
+				return val{}
+			}
 			if fv := w.fr.lookup(o); fv != nil {
 				return val{fv}
 			}
@@ -491,6 +504,12 @@ func (w *walker) storeInto(e ast.Expr, p token.Pos) {
 			w.wr(l, p)
 			return
 		}
+		if o := info.ObjectOf(x); o != nil {
+			if l, ok := w.fr.aliasOf(o); ok {
+				w.wr(l, p)
+				return
+			}
+		}
 		w.checkCapturedWrite(x)
 	case *ast.SelectorExpr:
 		sel := info.Selections[x]
@@ -564,6 +583,86 @@ func (w *walker) checkCapturedWrite(id *ast.Ident) {
 				w.fatal(id.Pos(), "root closure assigns to captured variable %s", id.Name)
 			}
 		}
+	}
+}
+
+// aliasRoot: the field whose memory a slice/map expression refers to, when that is syntactically
+// evident: a parameter (or a local derived from one) bound to a field's memory, or - for
+// arguments of calls (viaField) - a field selector itself, possibly sliced or indexed.
+func (w *walker) aliasRoot(e ast.Expr, viaField bool) (Loc, bool) {
+	info := w.t.l.info
+	for {
+		switch x := unparen(e).(type) {
+		case *ast.SliceExpr:
+			e = x.X
+			continue
+		case *ast.IndexExpr:
+			e = x.X
+			continue
+		case *ast.Ident:
+			if o := info.ObjectOf(x); o != nil {
+				return w.fr.aliasOf(o)
+			}
+			return Loc{}, false
+		case *ast.SelectorExpr:
+			if !viaField {
+				return Loc{}, false
+			}
+			sel := info.Selections[x]
+			if sel == nil || sel.Kind() != types.FieldVal || w.t.isLocalStructVar(x.X) {
+				return Loc{}, false
+			}
+			loc, in := w.t.fieldOwner(sel)
+			if !in {
+				return Loc{}, false
+			}
+			return loc, true
+		default:
+			return Loc{}, false
+		}
+	}
+}
+
+func isRefType(t types.Type) bool {
+	if t == nil {
+		return false
+	}
+	switch t.Underlying().(type) {
+	case *types.Slice, *types.Map:
+		return true
+	}
+	return false
+}
+
+// writeThrough: external callees that write through a slice argument (argument positions)
+var writeThrough = map[string][]int{
+	"crypto/cipher.Block.Encrypt": {0}, "crypto/cipher.Block.Decrypt": {0},
+	"crypto/cipher.AEAD.Seal": {0}, "crypto/cipher.AEAD.Open": {0},
+	"crypto/subtle.XORBytes": {0}, "golang.org/x/crypto/salsa20.XORKeyStream": {0},
+	"math/rand/v2.ChaCha8.Read": {0}, "crypto/rand.Read": {0},
+	"encoding/binary.littleEndian.PutUint16": {0}, "encoding/binary.littleEndian.PutUint32": {0},
+	"encoding/binary.littleEndian.PutUint64": {0}, "encoding/binary.bigEndian.PutUint16": {0},
+	"encoding/binary.bigEndian.PutUint32": {0}, "encoding/binary.bigEndian.PutUint64": {0},
+	"io.ReadFull": {1}, "io.ReadAtLeast": {1},
+}
+
+// extArgs evaluates the arguments of a call that leaves the package
+func (w *walker) extArgs(name string, c *ast.CallExpr) {
+	wt := writeThrough[name]
+	for i, a := range c.Args {
+		written := false
+		for _, k := range wt {
+			if k == i {
+				written = true
+			}
+		}
+		if written {
+			if _, ok := w.aliasRoot(a, true); ok {
+				w.storeInto(a, c.Pos())
+				continue
+			}
+		}
+		w.escapingValue(a)
 	}
 }
 
@@ -718,7 +817,7 @@ func (w *walker) callSelector(f *ast.SelectorExpr, c *ast.CallExpr) val {
 			return w.ifaceCall(f, fn, recvT, c)
 		}
 		w.expr(f.X)
-		w.args(c)
+		w.extArgs(typeStr(deref(recvT))+"."+fn.Name(), c)
 		w.t.externals[typeStr(deref(recvT))+"."+fn.Name()]++
 		w.tau(c.Pos())
 		return val{}
@@ -851,7 +950,7 @@ func (w *walker) ifaceCall(f *ast.SelectorExpr, fn *types.Func, recvT types.Type
 		w.fatal(c.Pos(), "call through in-package interface %s: not in the dictionary", name)
 	}
 	w.expr(f.X)
-	w.args(c)
+	w.extArgs(name+"."+fn.Name(), c)
 	w.t.externals[name+"."+fn.Name()]++
 	w.tau(c.Pos())
 	return val{}
@@ -925,12 +1024,29 @@ func (w *walker) external(q string, c *ast.CallExpr) val {
 				w.expr(u.X) // read only
 				continue
 			}
+			if _, ok := w.aliasRoot(a, true); ok && k == 0 {
+				w.storeInto(a, c.Pos())
+				continue
+			}
 			w.escapingValue(a)
 		}
 		w.tau(c.Pos())
 		return val{}
 	}
-	for _, a := range c.Args {
+	wt := writeThrough[q]
+	for i, a := range c.Args {
+		written := false
+		for _, k := range wt {
+			if k == i {
+				written = true
+			}
+		}
+		if written {
+			if _, ok := w.aliasRoot(a, true); ok {
+				w.storeInto(a, c.Pos())
+				continue
+			}
+		}
 		v := w.expr(a)
 		if v.fn != nil {
 			if v.fn.kind == "lit" {
@@ -1097,8 +1213,9 @@ func (w *walker) inlineDecl(fn *types.Func, recv ast.Expr, recvFrame *frame, arg
 		w.ctorSwitch()
 		fvs[0] = nil
 	}
-	fr := &frame{name: key, binds: map[types.Object]*funcVal{}, ptrLocal: map[types.Object]bool{}, labels: map[string]int{}}
+	fr := &frame{name: key, binds: map[types.Object]*funcVal{}, ptrLocal: map[types.Object]bool{}, alias: map[types.Object]Loc{}, labels: map[string]int{}}
 	memoable := !w.mute
+	aliasKey := ""
 	// bind parameters
 	sig := fn.Origin().Type().(*types.Signature)
 	params := paramObjs(w.t.l.info, d)
@@ -1106,10 +1223,16 @@ func (w *walker) inlineDecl(fn *types.Func, recv ast.Expr, recvFrame *frame, arg
 		if i < len(fvs) && fvs[i] != nil {
 			fr.binds[po] = fvs[i]
 			memoable = false
-		} else if i < len(args) {
+		} else if i < len(args) && args[i] != nil && po != nil {
 			if isAddrOfLocal(w.t, args[i]) {
 				fr.ptrLocal[po] = true
 				memoable = false
+			}
+			if isRefType(po.Type()) {
+				if loc, ok := w.aliasRoot(args[i], true); ok {
+					fr.alias[po] = loc
+					aliasKey += fmt.Sprintf("|a%d=%s", i, loc)
+				}
 			}
 		}
 	}
@@ -1125,7 +1248,7 @@ func (w *walker) inlineDecl(fn *types.Func, recv ast.Expr, recvFrame *frame, arg
 	if topCtors[key] {
 		memoable = false
 	}
-	mk := key + "|" + w.s.ls.key()
+	mk := key + "|" + w.s.ls.key() + aliasKey
 	if memoable {
 		if m, ok := w.memo[mk]; ok {
 			w.tauTo(m.entry, c.Pos(), "call "+key)
@@ -1239,7 +1362,7 @@ func (w *walker) inlineLit(fv *funcVal, c *ast.CallExpr, p token.Pos) val {
 			w.fatal(p, "recursive closure %s", name)
 		}
 	}
-	fr := &frame{name: name, parent: fv.lex, binds: map[types.Object]*funcVal{}, ptrLocal: map[types.Object]bool{}, labels: map[string]int{}}
+	fr := &frame{name: name, parent: fv.lex, binds: map[types.Object]*funcVal{}, ptrLocal: map[types.Object]bool{}, alias: map[types.Object]Loc{}, labels: map[string]int{}}
 	if c != nil {
 		i := 0
 		for _, f := range fv.lit.Type.Params.List {
